@@ -61,6 +61,8 @@ type Sched struct {
 
 	clockArmed bool
 	clockAt    time.Time
+	// AfterClock runs in the root right after the clock event fired.
+	AfterClock func()
 
 	Deadlock  bool   // no enabled thread while a driver had not finished
 	Horizon   bool   // step horizon reached
@@ -238,6 +240,10 @@ func (s *Sched) Run() {
 			s.lastRun = nil
 			if d := time.Until(s.clockAt); d > 0 {
 				time.Sleep(d)
+			}
+			synctest.Wait()
+			if s.AfterClock != nil {
+				s.AfterClock()
 			}
 			// let timers that fired at this instant run their callbacks
 			continue
